@@ -25,7 +25,7 @@ BOUNDS = {'quick': {'rank': '2..4', 'depth': '<= 2', 'modes': ['hard', 'meta', '
           'thorough': {'rank': '2..5', 'depth': '<= 3'}}
 OPTS = {'quick': {'max_paths': 50}, 'thorough': {'max_paths': 50}}
 SYMS = list(cat.SYMS)
-KINDS = ['roundtrip', 'dot', 'add', 'vdot', 'trace', 'block', 'reject']
+KINDS = ['roundtrip', 'roundtrip_multi', 'dot', 'add', 'vdot', 'trace', 'block', 'reject']
 
 
 def cases(tier, seed):
@@ -35,13 +35,15 @@ def cases(tier, seed):
         fac = {'sym': SYMS, 'dtype': ['real', 'complex'], 'mode': ['hard', 'meta', 'mixed'], 'drop': ['none', 'some'],
                'lazy': ['plain', 'lazy']}
         if kind == 'roundtrip':
-            fac['rank'] = [2, 3, 4] if tier == 'quick' else [2, 3, 4, 5]
+            fac['rank'] = [2, 3, 4, 5]
             fac['depth'] = [1, 2] if tier == 'quick' else [1, 2, 3]
+        if kind == 'roundtrip_multi':
+            fac = {'sym': SYMS, 'dtype': ['real', 'complex'], 'mode': ['hard', 'meta', 'mixed'], 'split': ['3+2', '2+3', '2+1+2', '2+2+1', '1+2+2', '4+1', '3+1+1', 'h3+m2+h2', 'h2+m2+h3', 'h2+m2+h1+h3'], 'perm': ['lazy', 'consumed', 'none'], 'unfuse': ['all', 'hard-first', 'meta-first', 'one-by-one']}
         if kind in ('dot', 'add', 'vdot'):
             fac['overlap'] = ['equal', 'subset', 'superset', 'overlap', 'disjoint']
             fac['policy'] = ['fuse_to_matrix', 'fuse_contracted', 'no_fusion']
         if kind == 'reject':
-            fac = {'sym': SYMS, 'variant': ['tree', 'unfused-vs-fused', 'signature', 'subdims', 'meta-vs-hard', 'nlegs'], 'mode': ['hard', 'meta']}
+            fac = {'sym': SYMS, 'variant': ['tree', 'unfused-vs-fused', 'signature', 'subdims', 'meta-vs-hard', 'nlegs', 'block-vs-fuse', 'subdims-equal-total'], 'mode': ['hard', 'meta']}
         if kind == 'block':
             fac = {'sym': SYMS, 'dtype': ['real', 'complex'], 'layout': ['1d', '2d', 'common'], 'drop': ['none', 'some'], 'overlap': ['equal', 'superset', 'disjoint']}
         for rep in range(reps):
@@ -89,7 +91,7 @@ def _flatten(l):
 def k_roundtrip(ctx, rng, spec, cfg):
     import yastn
     rank = spec['rank']
-    ts = cat.rand_tensor_spec(rng, spec['sym'], rank, dims=_dims(spec), max_size=_maxsize(spec), drop=spec.get('drop', 'none'), dtype=spec['dtype'])
+    ts = cat.rand_tensor_spec(rng, spec['sym'], rank, dims=_dims(spec), nsect=(1, 2, 3) if rank < 5 else (1, 2), max_size=_maxsize(spec), drop=spec.get('drop', 'none'), dtype=spec['dtype'])
     if ts is None:
         ctx.skip('none')
     a = cat.build(ctx, ts, 'a', config=cfg)
@@ -107,11 +109,19 @@ def k_roundtrip(ctx, rng, spec, cfg):
         if len(labels) < 2:
             break
         groups = _rand_grouping(rng, labels)
+        if d == 0 and rank == 5 and rng.random() < 0.6:
+            idx5 = list(range(5)); rng.shuffle(idx5)
+            groups = [tuple(idx5[:3]), tuple(idx5[3:])] if rng.random() < 0.5 else [tuple(idx5[:2]), tuple(idx5[2:])]
         mode = _mode(rng, spec)
         axes = tuple(g[0] if len(g) == 1 else g for g in groups)
         f = f.fuse_legs(axes=axes, mode=mode)
         labels = [labels[g[0]] if len(g) == 1 else tuple(labels[x] for x in g) for g in groups]
         steps.append((axes, mode))
+        if spec.get('lazy') == 'lazy' and len(labels) >= 2 and rng.random() < 0.7:
+            # pending (lazy) permutation of the fused tensor: un-fusing must honour it
+            q = list(range(len(labels))); rng.shuffle(q)
+            f = f.transpose(tuple(q))
+            labels = [labels[i] for i in q]
         wellformed(ctx, f, f'fuse[{d}]', expect_n=a.n, check_dense_zero=False)
         ctx.check(f.ndim == len(labels), 'fuse:rank', (f.ndim, labels))
         ctx.eq([yastn.vdot(f, f)], [naa], 'fuse:norm^2-preserved')
@@ -141,6 +151,101 @@ def k_roundtrip(ctx, rng, spec, cfg):
     ctx.check(f.mfs == ((1,),) * rank, 'unfuse:no-meta-left', f.mfs)
     ctx.eq(reassemble(f, [la[o] for o in order]), A.transpose(order), 'unfuse(fuse(a)) == a')
     return {'a': describe(a), 'steps': steps}
+
+
+def k_roundtrip_multi(ctx, rng, spec, cfg):
+    """several fused legs of unequal group sizes, a pending permutation of the fused tensor, then ALL fused legs un-fused in one call"""
+    import yastn
+    parts = spec['split'].split('+')
+    forced = [x[0] if x[0] in 'hm' else None for x in parts]
+    sizes = [int(x.lstrip('hm')) for x in parts]
+    rank = sum(sizes)
+    ts = cat.rand_tensor_spec(rng, spec['sym'], rank, dims=(1, 2) if rank <= 5 else (1,), nsect=(1, 2), max_size=_maxsize(spec), dtype=spec['dtype'],
+                              drop=rng.choice(['none', 'some']))
+    if ts is None:
+        ctx.skip('none')
+    a = cat.build(ctx, ts, 'a', config=cfg)
+    A = reassemble(a)
+    la = list(a.get_legs(native=True))
+    idx = list(range(rank)); rng.shuffle(idx)
+    groups, p = [], 0
+    for k in sizes:
+        groups.append(tuple(idx[p:p + k])); p += k
+    modes = []
+    f = a
+    # fuse every group with >= 2 legs; with mode 'mixed' the groups get different modes (hard ones first, then meta)
+    m0 = spec['mode']
+    gm = [(m0 if m0 != 'mixed' else rng.choice(['hard', 'meta'])) if len(g) > 1 else None for g in groups]
+    if any(forced):
+        gm = [({'h': 'hard', 'm': 'meta'}[fz] if len(g) > 1 else None) for g, fz in zip(groups, forced)]
+    hard_axes = tuple(g if (len(g) > 1 and gm[i] == 'hard') else None for i, g in enumerate(groups))
+    # step 1: hard fusions (others stay as single legs, kept in order)
+    axes1, lab1 = [], []
+    for g, m in zip(groups, gm):
+        if len(g) > 1 and m == 'hard':
+            axes1.append(g); lab1.append(tuple(g))
+        else:
+            for x in g:
+                axes1.append(x); lab1.append(x)
+    f = f.fuse_legs(axes=tuple(axes1), mode='hard')
+    # step 2: meta fusions of the remaining groups
+    axes2, lab2 = [], []
+    pos = {l: i for i, l in enumerate(lab1)}
+    for g, m in zip(groups, gm):
+        if len(g) > 1 and m == 'hard':
+            axes2.append(pos[tuple(g)]); lab2.append(tuple(g))
+        elif len(g) > 1:
+            axes2.append(tuple(pos[x] for x in g)); lab2.append(tuple(g))
+        else:
+            axes2.append(pos[g[0]]); lab2.append(g[0])
+    f = f.fuse_legs(axes=tuple(axes2), mode='meta')
+    labels = lab2
+    if spec['perm'] != 'none' and len(labels) >= 2:
+        q = list(range(len(labels)))
+        for _ in range(6):
+            rng.shuffle(q)
+            if q != sorted(q):
+                break
+        f = f.transpose(tuple(q))
+        labels = [labels[i] for i in q]
+        if spec['perm'] == 'consumed':
+            f = f.consume_transpose()
+    wellformed(ctx, f, 'fused+permuted', expect_n=a.n, check_dense_zero=False)
+    order = [x for l in labels for x in (l if isinstance(l, tuple) else (l,))]
+    gmode = {tuple(g): m for g, m in zip(groups, gm)}
+    def unfuse_where(t, labs, pred):
+        pos_ = tuple(i for i, l in enumerate(labs) if isinstance(l, tuple) and pred(l))
+        if not pos_:
+            return t, labs
+        t = t.unfuse_legs(axes=pos_ if len(pos_) > 1 else pos_[0])
+        new_l = []
+        for i, l in enumerate(labs):
+            new_l.extend(list(l) if i in pos_ else [l])
+        return t, new_l
+    uo = spec.get('unfuse', 'all')
+    u, labs = f, list(labels)
+    if uo == 'all':
+        u, labs = unfuse_where(u, labs, lambda l: True)
+    elif uo == 'hard-first':
+        u, labs = unfuse_where(u, labs, lambda l: gmode[l] == 'hard')
+        wellformed(ctx, u, 'unfuse-hard-only', expect_n=a.n, check_dense_zero=False)
+        ctx.check(u.ndim == len(labs), 'unfuse(hard legs only): rank', (u.ndim, labs, u.mfs))
+        u, labs = unfuse_where(u, labs, lambda l: True)
+    elif uo == 'meta-first':
+        u, labs = unfuse_where(u, labs, lambda l: gmode[l] == 'meta')
+        ctx.check(u.ndim == len(labs), 'unfuse(meta legs only): rank', (u.ndim, labs, u.mfs))
+        u, labs = unfuse_where(u, labs, lambda l: True)
+    else:
+        while any(isinstance(l, tuple) for l in labs):
+            first = next(l for l in labs if isinstance(l, tuple))
+            u, labs = unfuse_where(u, labs, lambda l, first=first: l == first)
+    ctx.check(labs == order, 'harness bookkeeping')
+    wellformed(ctx, u, 'unfuse-all-at-once', expect_n=a.n, check_dense_zero=False)
+    ctx.check(u.ndim == rank and u.mfs == ((1,),) * rank, 'unfuse:rank/mfs', (u.ndim, u.mfs))
+    got = u.get_legs(native=True)
+    ctx.check(all(dense.legs_equal(x, la[o]) for x, o in zip(got, order)), 'unfuse:legs-in-permuted-order', [(x.t, x.D, la[o].t, la[o].D) for x, o in zip(got, order)])
+    ctx.eq(reassemble(u, [la[o] for o in order]), A.transpose(order), f'unfuse_legs(all fused legs at once) after a pending permutation ({spec["split"]}, {gm}, {spec["perm"]})')
+    return {'a': describe(a), 'groups': groups, 'modes': gm}
 
 
 def _fuse_pair(ctx, rng, spec, a, b, axes_a, axes_b):
@@ -274,6 +379,9 @@ def _fused_same_side(ctx, rng, spec, cfg):
     ma = list(modes)
     rng.setstate(st)
     fb = _apply_plan(b, k, plan, mode_fn, ea)
+    if spec.get('lazy') == 'lazy' and fa.ndim >= 2:
+        q = tuple(range(1, fa.ndim)) + (0,)
+        fa, fb = fa.transpose(q), fb.transpose(q)       # the same pending permutation on both operands
     return a, b, fa, fb, k, ea, plan, ma
 
 
@@ -291,8 +399,14 @@ def k_add(ctx, rng, spec, cfg):
     a, b, fa, fb, k, ea, plan, ma = _fused_same_side(ctx, rng, spec, cfg)
     U = [union_leg(x, y) for x, y in zip(a.get_legs(native=True), b.get_legs(native=True))]
     A, B = reassemble(a, U), reassemble(b, U)
-    for name, c, ref in (('+', fa + fb, A + B), ('-', fa - fb, A - B)):
+    fa2 = ctx.fill(fa.copy(), 'a2', spec['dtype'])        # same fused structure as fa, fresh symbols
+    A2 = reassemble(_unfuse_all(fa2.transpose((fa2.ndim - 1,) + tuple(range(fa2.ndim - 1))) if (spec.get('lazy') == 'lazy' and fa2.ndim >= 2) else fa2), U)
+    x = ctx.scalar('x', 'real')
+    for name, c, ref in (('+', fa + fb, A + B), ('-', fa - fb, A - B), ('add3', yastn.add(fa, fb, fa2, amplitudes=[x, None, 2]), x * A + B + 2 * A2),
+                         ('add3b', yastn.add(fb, fa, fa2, fb), B + A + A2 + B)):
         wellformed(ctx, c, f'fused{name}', expect_n=a.n, check_dense_zero=False)
+        if spec.get('lazy') == 'lazy' and c.ndim >= 2:
+            c = c.transpose((c.ndim - 1,) + tuple(range(c.ndim - 1)))      # undo the shared permutation: fused leg first again
         cu = _unfuse_all(c)
         wellformed(ctx, cu, f'unfuse(fused{name})', expect_n=a.n)
         check_result_legs(ctx, cu, U, f'unfuse(fused{name})')
@@ -473,6 +587,36 @@ def k_reject(ctx, rng, spec, cfg):
         fa = a.fuse_legs(axes=((0, 1), 2), mode=mode)
         fb = b2.fuse_legs(axes=((0, 1), 2), mode=mode)
         ops = [lambda: yastn.tensordot(fa, fb, axes=((0, 1), (0, 1))), lambda: fa + fb.conj(), lambda: yastn.vdot(fa, fb.conj())]
+    elif v == 'subdims-equal-total':
+        # same charges, sub-leg dimensions swapped (2x3 vs 3x2): equal total dimension of the fused leg, different internal layout
+        if cfg.sym.NSYM:
+            t0 = rng.choice(cat.window(symn))
+            la_ = [{'t': [list(t0)], 'D': [2]}, {'t': [list(t0)], 'D': [3]}, l[2]]
+            lb_ = [{'t': [list(t0)], 'D': [3]}, {'t': [list(t0)], 'D': [2]}, l[2]]
+        else:
+            la_ = [{'t': [[]], 'D': [2]}, {'t': [[]], 'D': [3]}, l[2]]
+            lb_ = [{'t': [[]], 'D': [3]}, {'t': [[]], 'D': [2]}, l[2]]
+        a1, ts1 = mk('a1', s, la_)
+        tsb1 = dict(ts1, s=[-x for x in s], n=list(gadd(cfg.sym.SYM_ID, [tuple(ts1['n'])], [1], -1)), blocks=None, legs=lb_)
+        if not cat.allowed_blocks(symn, tsb1['s'], tsb1['legs'], tsb1['n']):
+            ctx.skip('none')
+        b1 = cat.build(ctx, tsb1, 'b1', config=cfg)
+        fa = a1.fuse_legs(axes=((0, 1), 2), mode=mode)
+        fb = b1.fuse_legs(axes=((0, 1), 2), mode=mode)
+        ops = [lambda: yastn.tensordot(fa, fb, axes=((0, 1), (0, 1))), lambda: yastn.tensordot(fa, fb, axes=(0, 0)), lambda: fa + fb.conj(), lambda: yastn.vdot(fa, fb.conj())]
+    elif v == 'block-vs-fuse':
+        # a leg obtained by blocking (direct sum, 's') against a leg obtained by hard fusion (product, 'p') with the same tree shape
+        s0 = s[0]
+        A1, _ = mk('A1', [s0, s[2]], [l[0], l[2]])
+        A2, _ = mk('A2', [s0, s[2]], [l[1], l[2]])
+        try:
+            x = yastn.block({(0,): A1, (1,): A2}, common_legs=(1,))
+        except yastn.YastnError:
+            ctx.skip('blocks incompatible')
+        y, _ = mk('y', [-s0, -s0, s[2]], [l[0], l[1], l[2]])
+        fy = y.fuse_legs(axes=((0, 1), 2), mode='hard')
+        ctx.check(x.get_legs(0).history()[0] == 's' and fy.get_legs(0).history()[0] == 'p', 'precondition: sum vs product history', (x.get_legs(0).history(), fy.get_legs(0).history()))
+        ops = [lambda: yastn.tensordot(x, fy, axes=(0, 0)), lambda: yastn.tensordot(fy, x, axes=(0, 0)), lambda: x + fy.flip_signature() if False else yastn.tensordot(x, fy, axes=((0,), (0,)))]
     elif v == 'meta-vs-hard':
         fa = a.fuse_legs(axes=((0, 1), 2), mode='meta')
         fb = b.fuse_legs(axes=((0, 1), 2), mode='hard')
